@@ -42,11 +42,13 @@ type Gen struct {
 	// (what the indexed state's rule index can take in an event).
 	Homogeneous bool
 	// T receives the action / condition scripts the generator invents.
-	T      *enc.Tables
-	nact   int
-	nvar   int
-	inRule bool
-	known  []map[string]interface{} // when patterns of recently added rules
+	T            *enc.Tables
+	nact         int
+	nvar         int
+	inRule       bool
+	lastDisabled [2]string                // location and id of the rule disabled last (cron profile)
+	forceHit     int                      // the next events are made to match a recently added rule
+	known        []map[string]interface{} // when patterns of recently added rules
 }
 
 var homogeneous = [][]interface{}{{"x", "y", "tacos"}, {1.0, 2.0, 0.5}, {true, false}}
@@ -629,7 +631,8 @@ func (g *Gen) Rule() map[string]interface{} {
 		"when": map[string]interface{}{"pattern": g.Pattern()},
 	}
 	g.inRule = false
-	if g.R.Intn(12) == 0 {
+	if g.R.Intn(8) == 0 {
+		g.forceHit = 2
 		// a when pattern the indexed state's rule index refuses (an array of mixed types): written over an
 		// existing rule, the refusal must leave the old rule exactly as dispatchable as it was
 		k := g.pick(topKeys)
@@ -720,6 +723,12 @@ func (g *Gen) Next() Op {
 		}
 	case "EnableRule":
 		op.Id, op.Flag = id, g.R.Intn(2) == 0
+		if g.P.Cron {
+			op.Flag = g.R.Intn(10) < 3 // mostly disabling: what a tick must then leave alone
+			if !op.Flag {
+				g.lastDisabled = [2]string{op.Loc, op.Id}
+			}
+		}
 	case "SetParents":
 		// distinct parents (a parent listed twice is visited twice by the code; not in any quantifier)
 		perm := g.R.Perm(len(g.P.Locs))
@@ -739,7 +748,10 @@ func (g *Gen) Next() Op {
 		g.Homogeneous = !g.P.MixedEvents
 		op.Val = g.Fact()
 		g.Homogeneous = false
-		if !g.P.Dispatch && !g.P.Index && (g.R.Intn(2) == 0 || (g.P.Name == "guardacts" && g.R.Intn(3) > 0)) {
+		if !g.P.Dispatch && !g.P.Index && (g.R.Intn(2) == 0 || g.forceHit > 0 || (g.P.Name == "guardacts" && g.R.Intn(3) > 0)) {
+			if g.forceHit > 0 {
+				g.forceHit--
+			}
 			if ev := g.hitEvent(); ev != nil {
 				op.Val = ev
 			}
@@ -756,6 +768,9 @@ func (g *Gen) Next() Op {
 		op.Flag = g.R.Intn(2) == 0
 	case "Tick":
 		op.Id = id
+		if g.lastDisabled[1] != "" && g.R.Intn(3) == 0 {
+			op.Loc, op.Id = g.lastDisabled[0], g.lastDisabled[1] // the tick of a rule that was disabled a moment ago
+		}
 	case "BadRequest":
 		op.Id = g.pick([]string{"missing-location", "missing-fact", "fact-not-a-map", "unknown-uri", "empty-body", "location-not-string"})
 	case "SetKey":
